@@ -78,6 +78,8 @@ func (a afSpec) sql() string {
 		call = "v - lag(v)"
 	case "range":
 		call = "acc_max(v) - acc_min(v)"
+	case "lagsum":
+		call = "lag(v) - acc_sum(v)" // the first call is NULL on a partition's first row; the second still has to see that row
 	case "cnt0":
 		call = "acc_count(v) + 0"
 	case "coal":
@@ -125,7 +127,7 @@ func (c14) Gen(rng *simrt.Rand, seed uint64, tier string) *Case {
 		}
 	}
 	c.X["pcol"] = pcol
-	fns := []string{"lag", "lag", "latest", "had_changed", "changed_col", "acc_sum", "acc_count", "acc_avg", "acc_min", "acc_max", "diff", "range"}
+	fns := []string{"lag", "lag", "latest", "had_changed", "changed_col", "acc_sum", "acc_count", "acc_avg", "acc_min", "acc_max", "diff", "range", "lagsum"}
 	nf := 1 + rng.Intn(4)
 	var specs []afSpec
 	var sel []string
@@ -153,7 +155,7 @@ func (c14) Gen(rng *simrt.Rand, seed uint64, tier string) *Case {
 		case "acc_sum", "acc_count", "acc_avg", "acc_min", "acc_max":
 			a.Cond = []string{"", "", "start", "startreset", "startreset"}[rng.Intn(5)]
 		}
-		if rng.Bool(0.25) && a.Fn != "diff" && a.Fn != "range" {
+		if rng.Bool(0.25) && a.Fn != "diff" && a.Fn != "range" && a.Fn != "lagsum" {
 			a.When = []string{"gt2", "ge0"}[rng.Intn(2)]
 		}
 		specs = append(specs, a)
@@ -457,6 +459,13 @@ func (a afSpec) apply(st *refState, v any) any {
 		fl, ok2 := toFloat(l)
 		if ok1 && ok2 {
 			return fv - fl
+		}
+		return nil
+	case "lagsum": // lag(v) - acc_sum(v)
+		l := st.lagApply(v, 1, nil, false, true)
+		st.acc(v)
+		if fl, ok := toFloat(l); ok && l != nil {
+			return fl - st.sum
 		}
 		return nil
 	case "cnt0": // acc_count(v) + 0
